@@ -3,7 +3,11 @@ package checks
 import (
 	"encoding/json"
 	"fmt"
+	"github.com/cenkalti/backoff/v4"
+	"github.com/gebn/bmc"
+	"github.com/gebn/bmc/pkg/ipmi"
 	"strings"
+	"time"
 
 	"verif/env"
 	"verif/ref"
@@ -17,6 +21,12 @@ import (
 func init() {
 	register(&Check{ID: "C09", Run: func(r *rep.R) { runHist(r, "C09") }, Shards: 16, MinOutcomes: 4})
 	register(&Check{ID: "C10", Run: func(r *rep.R) { runHist(r, "C10") }, Shards: 16, MinOutcomes: 4})
+	Replayers["c10persist"] = func(raw json.RawMessage) (string, bool) {
+		var c c10PersistCase
+		json.Unmarshal(raw, &c)
+		k, msg := c10Persist(c)
+		return fmt.Sprintf("%s %s", k, msg), k != ""
+	}
 	Replayers["hist"] = func(raw json.RawMessage) (string, bool) {
 		var c histReplay
 		json.Unmarshal(raw, &c)
@@ -391,6 +401,35 @@ func runHist(r *rep.R, prop string) {
 			histExplore(r, prop, cfg, K+1, &idx)
 		}
 	}
+	if prop == "C10" {
+		// persistence under the library's own default back-off
+		for _, call := range []string{"sessionless-command", "new-session", "retrieve-cipher-suites", "session-command"} {
+			for _, pat := range []string{"black-hole", "garbage", "temporary-code"} {
+				if call == "session-command" && pat == "black-hole" {
+					continue // in-session transport failure is terminal by contract
+				}
+				if call == "new-session" && pat == "temporary-code" {
+					continue // setup payloads have no completion code
+				}
+				for _, d := range []int{5, 30, 300, 840, 960, 1800, 3600, 10800} {
+					idx++
+					if !r.Mine(idx) {
+						continue
+					}
+					c := c10PersistCase{Call: call, Pattern: pat, DeadS: d}
+					k, msg := c10Persist(c)
+					r.Eval(rep.H("persist", fmt.Sprint(c)), true)
+					r.Trace()
+					if k != "" {
+						r.Outcome("violation")
+						r.Violate(k, msg, "c10persist", c, nil)
+					} else {
+						r.Outcome("persist:retried-until-the-context-expired")
+					}
+				}
+			}
+		}
+	}
 	// the same kind of exploration over the library's real transport and a
 	// loopback socket, compared execution by execution with the in-memory model
 	for _, inSess := range []bool{true, false} {
@@ -463,6 +502,66 @@ func histExplore(r *rep.R, prop string, cfg histCfg, bound int, idx *int64) {
 		}
 	}
 	e.Explore()
+}
+
+// c10PersistCase: a call whose every attempt fails in a retryable way, made on
+// a connection that keeps the library's own default back-off, with a long
+// context: the library must keep trying until the context expires.
+type c10PersistCase struct {
+	Call    string `json:"call"`
+	Pattern string `json:"pattern"`
+	DeadS   int    `json:"dead_s"`
+}
+
+func c10Persist(c c10PersistCase) (string, string) {
+	cfg := c13Config()
+	clock := &env.Clock{Deadline: time.Duration(c.DeadS) * time.Second}
+	w := newWorld(cfg, nil, nil)
+	// the connection as DialV2 builds it: per-attempt timeout 1 s, default back-off
+	w.Conn = bmc.NewV2SessionlessTransportVerif(w.T, time.Second, nil)
+	w.T.Timeout = time.Second
+	w.T.MaxAttempts = 20000
+	var sess *bmc.V2Session
+	if c.Call == "session-command" {
+		s, err := w.Conn.NewV2Session(w.Ctx, &bmc.V2SessionOpts{SessionOpts: bmc.SessionOpts{Username: "c10", Password: cfg.Password, MaxPrivilegeLevel: ipmi.PrivilegeLevelUser}, CipherSuites: []ipmi.CipherSuite{ipmi.CipherSuite3}})
+		if err != nil {
+			return "C10/persist/harness", err.Error()
+		}
+		sess = s
+	}
+	// virtual time starts with the call under test
+	w.T.Clock = clock
+	w.Clock = clock
+	w.Ctx, w.Cancel = newCtx()
+	clock.Cancel = w.Cancel
+	backoff.VerifSleep = w.T.Sleep
+	backoff.VerifNow = clock.Time
+	defer func() { backoff.VerifNow = nil }()
+	w.T.Menu = func(t *env.Transport, req []byte) []env.Answer { return []env.Answer{c13Answer(c.Pattern)} }
+	var err error
+	p := guard(func() {
+		switch c.Call {
+		case "sessionless-command":
+			_, err = w.Conn.GetSystemGUID(w.Ctx)
+		case "new-session":
+			_, err = w.Conn.NewV2Session(w.Ctx, &bmc.V2SessionOpts{SessionOpts: bmc.SessionOpts{Username: "c10", Password: cfg.Password, MaxPrivilegeLevel: ipmi.PrivilegeLevelUser}, CipherSuites: []ipmi.CipherSuite{ipmi.CipherSuite3}})
+		case "retrieve-cipher-suites":
+			_, err = bmc.RetrieveSupportedCipherSuites(w.Ctx, w.Conn)
+		case "session-command":
+			_, err = sess.GetDeviceID(w.Ctx)
+		}
+	})
+	what := fmt.Sprintf("%s, every attempt answered with %q, context deadline %d s of virtual time (lost reply = 1 s, back-off sleeps as requested)", c.Call, c.Pattern, c.DeadS)
+	if p != "" {
+		return "C10/persist/panic", what + ": " + p
+	}
+	if err == nil {
+		return "C10/persist/success-without-valid-response", what
+	}
+	if !clock.Expired {
+		return "C10/persist/gave-up-while-the-context-was-alive/" + c.Call, fmt.Sprintf("%s: the call returned %q after %v of virtual time and %d transmissions, with the caller's context still alive", what, err, clock.Now, len(w.T.Log))
+	}
+	return "", ""
 }
 
 // histConform explores cfg over the library's real transport and a loopback
